@@ -111,7 +111,15 @@ def explore(ctx):
                                   'positions): {!r}'.format(v)[:300],
                                   dict(L.describe(c), key='nonplain:' + c.text[:60]))
                 objs = count_objects(c.model, v)
-                if sorted(objs) != sorted(inits):
+                from props import c10 as _c10
+                if _c10.repeated_keys(c):
+                    # an entry of a dict whose key occurs again later is constructed and then overwritten
+                    ctx.count('repeated_keys')
+                    import collections
+                    if collections.Counter(objs) - collections.Counter(inits):
+                        ctx.violation('the result contains {} but constructors ran only for {}'.format(objs, inits),
+                                      dict(L.describe(c), key='unconstructed-object:' + c.text[:60]))
+                elif sorted(objs) != sorted(inits):
                     ctx.violation('constructors ran for {} but the result contains {}'.format(inits, objs),
                                   dict(L.describe(c), key='extra-construction:' + c.text[:60]))
             else:
